@@ -54,6 +54,14 @@ TRUSTED = [
     "harness/c14.cpp: fork per request, counting callbacks that end the child at the first kernel/"
     "distance call, logger capturing the debug echo; quick tier builds it -O0 without sanitizers; in the "
     "parallel-region mode (omp_region) the counters and the echo are those of thread 0 of the application's region",
+    "wave 4: the routes from the comma expression to embed() (copy construction, copy assignment into a fresh / used set, "
+    "self-assignment, kwargs[], chain interface, merge receiver, std::move, a std::vector slot) are written out by hand in "
+    "harness/c14.cpp (with_route) and, with the same numbering, in Validate_Model.route_of_id; that the two describe the "
+    "same C++ is tied by running both on every request of the route stream, not proved; implicit copies the compiler may "
+    "elide are not distinguished; the translator reads the copy constructor and operator= of ParametersSet only in the "
+    "member-wise / defaulted / implicit / copy-and-swap shapes and refuses anything else (move operations included)",
+    "wave 4: in a sequence of requests (one process) the earlier requests are limited to ones that end by themselves "
+    "(rejected, cancelled, or a feature-only method on 8 samples)",
     "Coq primitive floats / Uint63 (stdlib primitives listed by Print Assumptions for "
     "computed_bounds_binary64 and landmark_count_binary64 only)",
 ]
@@ -1522,7 +1530,16 @@ def run(ctx):
              "with its documented default (one at a time and all at once, N = 8 and 100) must give the outcome of the "
              "request that leaves it unset; omp_region = 9 request kinds per method made from inside an application's "
              "own `#pragma omp parallel num_threads(3)` region by every thread at once (nested parallelism off / on), "
-             "and once more with OMP_THREAD_LIMIT=2 below OMP_NUM_THREADS=4: every thread must get the serial outcome.",
+             "and once more with OMP_THREAD_LIMIT=2 below OMP_NUM_THREADS=4: every thread must get the serial outcome. "
+             "Wave 4: route = every method x {accepted, duplicate at the end, duplicate at a random position, triple} + 7 "
+             "other request kinds, each sent to embed() by each of 10 C++ routes (copy construction; copy assignment into a "
+             "fresh set / a set that held a duplicate-free expression / a set that held a duplicated expression; "
+             "self-assignment; kwargs[]; the chain interface; merge receiver; std::move; a std::vector slot overwritten by "
+             "erase): the outcome must be the documented one of the comma expression (the model runs the GENERATED copy "
+             "constructor / operator= along the same route); the container probes also report check() and the map after "
+             "every route; sequence = 20 methods x 5 final requests x 2 (quick) / 9 (thorough) histories of earlier requests "
+             "made in the same process (rejected in every documented way, cancelled, completed), the final request must come "
+             "out as in a fresh process. distinct also by route and history.",
         samples=[{k: c[k] for k in ("N", "mask", "kws", "gen", "route", "before") if k in c} for c in cases[:3] + cases[len(cases) // 2:len(cases) // 2 + 3]],
         histogram={"generators": hist, "implementation_outcomes": stats["outcomes"],
                    "cells_covered(method,keyword,side)": len(cellset),
@@ -1543,6 +1560,10 @@ def run(ctx):
                      "coupling / huge data magnitudes (the property ends before the first callback evaluation: the data "
                      "is never read; huge PARAMETER magnitudes are in cell_extreme / cell_nonfinite)",
                      "Arpack eigen method is not compiled in this build (not exercised)",
+                     "wave-4 classes that cannot matter here: non-metric callbacks / non-contiguous ranges / neighbour-list "
+                     "orders / wide dynamic range / size thresholds / oracle extreme values (the property ends before the first "
+                     "callback evaluation and no random number is drawn before it); covered: routes of the set into embed(), "
+                     "state surviving a call (sequence stream)",
                      "a branch on the data that is reached only after a kernel/distance evaluation on every path, and "
                      "that neither checks nor throws, is outside the property and not modelled (the translator lists "
                      "each one in the notes); none exists on the pinned tree",
